@@ -218,7 +218,8 @@ end CifModel.Spec.Doc
       packet_end answering SKIP_SIBLINGS) gets no loop_end either;
     * a scalar item answered SKIP_* is not stored; a loop item answered SKIP_CURRENT stays in its packet; SKIP_SIBLINGS from a
       loop item drops the whole packet (no packet_end); a packet whose start answered SKIP_* or whose end did not answer
-      CONTINUE is not stored; a loop left without packets is not stored.
+      CONTINUE is not stored; a loop left without packets stays in `prunedDoc` as a loop without packets and is removed by
+      the store when its container ends (`denoteP` below = `denote` followed by that removal in every container).
 -/
 namespace CifModel.Spec.Doc
 open CifModel.ParseCB
@@ -250,9 +251,8 @@ def dPackets (p : Prog) (names : List Str) : List (List V) → Nat → Nat × Li
 def dLoop (p : Prog) (storing : Bool) (names : List Str) (pks : List (List V)) (n : Nat) : Nat × List Elem × Bool :=
   if p n (.loopStart names) = CONTINUE then
     let b := dPackets p names pks (n + 1)
-    let kept : List Elem := if b.2.1.isEmpty then [] else [.loop names b.2.1]
-    if b.2.2 then (b.1, kept, false)
-    else (b.1 + 1, kept, decide (p b.1 (.loopEnd (if storing then some names else none)) = SKIP_SIBLINGS))
+    if b.2.2 then (b.1, [.loop names b.2.1], false)
+    else (b.1 + 1, [.loop names b.2.1], decide (p b.1 (.loopEnd (if storing then some names else none)) = SKIP_SIBLINGS))
   else (n + 1, [], decide (p n (.loopStart names) = SKIP_SIBLINGS))
 
 mutual
@@ -292,6 +292,21 @@ def dBlocks (p : Prog) (storing : Bool) : List Block → Nat → List Block
   | b :: bs, n =>
     let r := dBlock p storing b n
     if r.2.2 then [r.2.1] else r.2.1 :: dBlocks p storing bs r.1
+
+-- the denotation with the container-end removal of packet-less loops (`cif_container_prune`)
+mutual
+  def denotePElem : Elem → Content → Content
+    | .item n v, c => c.setScalar n v
+    | .loop ns pks, c => c.addLoop { category := none, names := ns, packets := pks }
+    | .frame code body, c =>
+      c.addFrame (.mk code (denotePBody body .empty).prune.frames (denotePBody body .empty).prune.loops)
+  def denotePBody : List Elem → Content → Content
+    | [], c => c
+    | e :: es, c => denotePBody es (denotePElem e c)
+end
+
+def denoteP (d : Doc) : Cif :=
+  d.map (fun b => Container.mk b.code (denotePBody b.body .empty).prune.frames (denotePBody b.body .empty).prune.loops)
 
 /-- the document with the bypassed sub-trees removed -/
 def prunedDoc (p : Prog) (storing : Bool) (d : Doc) : Doc :=
